@@ -394,4 +394,4 @@ def run(ctx, rep):
                "ValueError / silent as documented" if not inval else "; ".join(inval), ctx.func(CL + "." + direction).loc, kind="table")
     rep.floor("R20.1", "model runs of upload/download", total, 60)
     from . import common as K
-    K.share(ctx, rep, "c05", lambda o: o.rule == "R05.4", "R20.5", floor=5)
+    K.share(ctx, rep, "c05", lambda o: o.rule in ("R05.4", "R05.8"), "R20.5", floor=5)
